@@ -128,7 +128,9 @@ AnalysisKinds == <<"optimize", "optimize_min", "slim_optimize", "fva", "fva_loop
                    "single_gene_deletion", "single_reaction_deletion", "double_gene_deletion", "production_envelope",
                    "minimal_medium", "minimal_medium_components", "fastcc", "sample_achr", "sample_optgp",
                    "model_summary", "metabolite_summary", "reaction_summary", "gapfill", "assess", "fva_parallel",
-                   "single_gene_deletion_parallel", "find_essential_genes_parallel", "add_loopless_ctx", "medium_get">>
+                   "single_gene_deletion_parallel", "find_essential_genes_parallel", "add_loopless_ctx", "medium_get",
+                   \* calls that are rejected part-way (an identifier that is no reaction of the model; exchanges already opened)
+                   "find_blocked_bad_list", "fva_bad_list", "deletion_bad_list">>
 Formats == <<"json", "yaml", "dict", "pickle", "sbml", "json_file", "yaml_file", "sbml_file", "json_sorted", "sbml_freplace_off">>
 HelperKinds == <<"add_pfba", "add_moma", "add_room", "fix_objective_as_constraint", "add_loopless", "add_lp_feasibility",
                  "custom_objective">>
@@ -195,7 +197,7 @@ DrawOp(r, S) ==
     [] k = "Query" -> base
     [] k = "Prune" -> [a |-> k, s |-> s, t |-> 3 - s, kind |-> Pick(<<"mets", "rxns">>, d[8])]
     [] k = "FixObjective" -> base
-    [] k = "RxnArith" -> base @@ [r |-> rx, q |-> rx2, kind |-> Pick(<<"copy", "add", "sub", "mul">>, d[8]), k |-> Pick(<<2, -1, 3, -2, 0>>, d[9])]
+    [] k = "RxnArith" -> base @@ [r |-> rx, q |-> rx2, kind |-> Pick(<<"copy", "add", "sub", "mul", "radd0", "sum1">>, d[8]), k |-> Pick(<<2, -1, 3, -2, 0>>, d[9])]
     [] k = "ReAddDetached" -> base @@ [r |-> PickPresent(RxSeq, RxU \ C.rxns, d[3])]
     [] k = "DetachedRename" -> base @@ [r |-> PickPresent(RxSeq, RxU \ C.rxns, d[3]), new |-> PickPresent(RxSeq, RxU \ C.rxns, d[8])]
     [] k = "DetachedSetBounds" -> base @@ [r |-> PickPresent(RxSeq, RxU \ C.rxns, d[3]), lo |-> Pick(LoVals, d[8]), hi |-> Pick(HiVals, d[9])]
@@ -233,7 +235,7 @@ DrawOp(r, S) ==
     [] k = "RemoveGroup" -> base @@ [g |-> "grp1"]
     [] k \in {"GroupAddMembers", "GroupRemoveMembers"} -> base @@ [g |-> "grp1", members |-> IF d[8] % 3 = 0 THEN <<rx>> ELSE IF d[8] % 3 = 1 THEN <<mt, gn>> ELSE <<gn>>]
     [] k = "Annotate" -> base @@ [x |-> IF Profile = "io" /\ d[11] % 2 = 0 THEN "MODEL" ELSE Pick(<<rx, mt, gn, "MODEL">>, d[8]),
-                                  v |-> 1 + (d[9] % 6), via |-> d[10] % 3]
+                                  v |-> 1 + (d[9] % 7), via |-> d[10] % 3]
     [] k = "SetAttr" ->
          LET f == Pick(<<"name", "formula", "charge", "subsys", "name", "charge", "comp">>, d[8]) IN
          base @@ [field |-> f, x |-> IF f \in {"formula", "charge"} THEN mt ELSE IF f = "subsys" THEN rx
@@ -242,7 +244,7 @@ DrawOp(r, S) ==
     [] k = "Copy" -> [a |-> k, s |-> 1, t |-> 2, kind |-> Pick(<<"copy", "deepcopy", "pickle">>, d[8])]
     [] k \in {"Merge", "MergeNew"} -> [a |-> k, s |-> s, t |-> 3 - s, obj |-> Pick(<<"left", "left", "right", "sum">>, d[8])]
     [] k = "AddArith" -> [a |-> k, s |-> s, t |-> IF d[10] % 3 = 0 THEN s ELSE 3 - s, r |-> rx, q |-> rx2,
-                          kind |-> Pick(<<"add", "copy", "add", "sub", "mul">>, d[8]), k |-> Pick(<<2, -1>>, d[9]),
+                          kind |-> Pick(<<"add", "copy", "add", "sub", "mul", "sum1">>, d[8]), k |-> Pick(<<2, -1>>, d[9]),
                           new |-> PickPresent(PlainRx, RxU \ C.rxns, d[11])]
     [] k = "Enter" -> base
     \* exc: the block ends by an exception (__exit__ is called with the exception triple) -- same meaning
@@ -272,6 +274,7 @@ IoOps ==
   \cup {[a |-> "Annotate", s |-> 1, x |-> "MODEL", v |-> 3, via |-> 2],
         [a |-> "Annotate", s |-> 1, x |-> "m1", v |-> 6, via |-> 2],
         [a |-> "Annotate", s |-> 1, x |-> "r2", v |-> 6, via |-> 2],
+        [a |-> "Annotate", s |-> 1, x |-> "r1", v |-> 7, via |-> 0],
         [a |-> "Annotate", s |-> 1, x |-> "g1", v |-> 4, via |-> 0],
         [a |-> "SetAttr", s |-> 1, x |-> "m1", field |-> "charge", v |-> 0],
         [a |-> "SetAttr", s |-> 1, x |-> "m1", field |-> "formula", v |-> 2],
@@ -284,6 +287,8 @@ IoOps ==
 CopyOps ==
   {[a |-> "AddArith", s |-> 1, t |-> 2, r |-> "r3", q |-> "r1", kind |-> "add", k |-> 2, new |-> "EX_m4"],
    [a |-> "AddArith", s |-> 2, t |-> 1, r |-> "r1", q |-> "r2", kind |-> "copy", k |-> 2, new |-> "EX_m4"],
+   [a |-> "RxnArith", s |-> 1, r |-> "r1", q |-> "r2", kind |-> "sum1", k |-> 2],
+   [a |-> "RxnArith", s |-> 2, r |-> "r3", q |-> "r2", kind |-> "radd0", k |-> 2],
    [a |-> "RemoveGenes", s |-> 2, gs |-> <<"g1">>, rr |-> FALSE, form |-> 0],
    [a |-> "RemoveGenes", s |-> 1, gs |-> <<"g3">>, rr |-> FALSE, form |-> 1],
    [a |-> "RenameGene", s |-> 2, g |-> "g1", new |-> "g4", more |-> <<>>],
@@ -308,7 +313,8 @@ CopyOps ==
 \* analysis vocabulary: analyses (each called twice by the driver) after / between the edits that leave hidden
 \* state behind: a constraint added for good, an open or closed context, a changed objective
 AnalyzeOps ==
-  {[a |-> "Analyze", s |-> 1, kind |-> k, arg |-> 1] : k \in {"pfba", "optimize_min", "fva", "room", "minimal_medium", "find_blocked"}}
+  {[a |-> "Analyze", s |-> 1, kind |-> k, arg |-> 1] : k \in {"pfba", "optimize_min", "fva", "room", "minimal_medium", "find_blocked",
+                                                               "find_blocked_bad_list"}}
   \cup {[a |-> "FixObjective", s |-> 1],
         [a |-> "SetObjective", s |-> 1, form |-> 0, d |-> [x \in RxU |-> IF x = "r2" THEN 1 ELSE 0]],
         [a |-> "SetBounds", s |-> 1, r |-> "r1", lo |-> 0, hi |-> 5],
